@@ -68,7 +68,8 @@ theorem told_down_renews_identity (E : Env) (c : Ctx) (hp : c.s.policy = .bump) 
   unfold handleSelfUpdate attemptRejoin
   simp only [bind_run, getS_run, hp, renew]
   have hne' : (c.s.id == (⟨c.s.id.addr, c.s.id.gen + 1⟩ : Id)) = false := by simpa using hne
-  simp only [hne', Bool.false_eq_true, if_false, hw, Bool.not_true]
+  have hw' : renewWins Policy.bump (⟨c.s.id.addr, c.s.id.gen + 1⟩ : Id) c.s.id = true := by simp [renewWins, Id.wins]
+  simp only [hne', Bool.false_eq_true, if_false, hw', Bool.not_true]
   cases hci : changeIdentity E ⟨c.s.id.addr, c.s.id.gen + 1⟩ .bump c <;> simp [hci]
 
 /-- A renewed identity replaces the Down record of its predecessor, whatever the states, and becomes
